@@ -6,6 +6,8 @@ use std::panic::{catch_unwind, AssertUnwindSafe};
 mod c10;
 mod c17;
 mod lang;
+mod ls;
+mod root;
 
 fn cps_to_string(v: &Value) -> String {
     match v {
@@ -37,6 +39,10 @@ fn main() {
             "c10" => c10::run(&case),
             "c17lex" => c17::lex(&case),
             "lex" => lang::lex(&case),
+            "libhist" => root::library_history(&case),
+            "makeuse" => root::make_use_of(&case),
+            "reset" => root::reset(&case),
+            "encode" => ls::encode(&case),
             "format" => lang::format(&case),
             "twolex" => lang::two_lexers(&case),
             "parse" => lang::parse(&case),
